@@ -227,6 +227,9 @@ SymmetricTridiagonalSolver<T>::SymmetricTridiagonalSolver(SymmetricTridiagonalSo
 template <typename T>
 SymmetricTridiagonalSolver<T>& SymmetricTridiagonalSolver<T>::operator=(SymmetricTridiagonalSolver&& other) noexcept
 {
+    if (this == &other) {
+        return *this; // Handle self-assignment
+    }
     matrix_dimension_            = other.matrix_dimension_;
     main_diagonal_values_        = std::move(other.main_diagonal_values_);
     sub_diagonal_values_         = std::move(other.sub_diagonal_values_);
